@@ -791,8 +791,14 @@ enum cc_stat cc_slist_sublist(CC_SList *list, size_t from, size_t to, CC_SList *
     SNode *base = NULL;
     SNode *node = NULL;
 
+    CC_SListConf conf;
+
+    conf.mem_alloc  = list->mem_alloc;
+    conf.mem_calloc = list->mem_calloc;
+    conf.mem_free   = list->mem_free;
+
     CC_SList *sub;
-    enum cc_stat status = cc_slist_new(&sub);
+    enum cc_stat status = cc_slist_new_conf(&conf, &sub);
 
     if (status != CC_OK)
         return status;
@@ -833,8 +839,14 @@ enum cc_stat cc_slist_sublist(CC_SList *list, size_t from, size_t to, CC_SList *
  */
 enum cc_stat cc_slist_copy_shallow(CC_SList *list, CC_SList **out)
 {
+    CC_SListConf conf;
+
+    conf.mem_alloc  = list->mem_alloc;
+    conf.mem_calloc = list->mem_calloc;
+    conf.mem_free   = list->mem_free;
+
     CC_SList *copy;
-    enum cc_stat status = cc_slist_new(&copy);
+    enum cc_stat status = cc_slist_new_conf(&conf, &copy);
 
     if (status != CC_OK)
         return status;
@@ -872,8 +884,14 @@ enum cc_stat cc_slist_copy_shallow(CC_SList *list, CC_SList **out)
  */
 enum cc_stat cc_slist_copy_deep(CC_SList *list, void *(*cp) (void*), CC_SList **out)
 {
+    CC_SListConf conf;
+
+    conf.mem_alloc  = list->mem_alloc;
+    conf.mem_calloc = list->mem_calloc;
+    conf.mem_free   = list->mem_free;
+
     CC_SList *copy;
-    enum cc_stat status = cc_slist_new(&copy);
+    enum cc_stat status = cc_slist_new_conf(&conf, &copy);
 
     if (status != CC_OK)
         return status;
@@ -1075,16 +1093,26 @@ enum cc_stat cc_slist_filter(CC_SList *list, bool (*pred) (const void*), CC_SLis
   if (cc_slist_size(list) == 0)
         return CC_ERR_OUT_OF_RANGE;
 
-    CC_SList *filtered = NULL;
-    cc_slist_new(&filtered);
+    CC_SListConf conf;
 
-    if (!filtered)
-        return CC_ERR_ALLOC;
+    conf.mem_alloc  = list->mem_alloc;
+    conf.mem_calloc = list->mem_calloc;
+    conf.mem_free   = list->mem_free;
+
+    CC_SList *filtered = NULL;
+    enum cc_stat status = cc_slist_new_conf(&conf, &filtered);
+
+    if (status != CC_OK)
+        return status;
 
     SNode *curr = list->head;
     while (curr) {
         if (pred(curr->data)) {
-	  cc_slist_add(filtered, curr->data);
+            status = cc_slist_add(filtered, curr->data);
+            if (status != CC_OK) {
+                cc_slist_destroy(filtered);
+                return status;
+            }
         }
 
         curr = curr->next;
